@@ -21,13 +21,15 @@
       * decoder, every q in 2..30 and every (s,t) of the square: the result is finite and the
         `norm_squared < 1e-6` zero-vector branch is unreachable (C07_unit_vector_finite_nonzero).
     MISSING (searched on the real library only, see props/reg/C07.json): the numeric clauses
-      | |d| - 1 | <= 1e-6   and   angle <= 3*(2/(2^q-2)) + 2e-6.
+      | |d| - 1 | <= 1e-6   and   angle <= 3*(2/(2^q-2)) + 2e-6   for the float model.
+    Only an exact-arithmetic counterpart of the angle clause is proved (C07_angle_bound_ideal:
+    sin(angle) <= 0.7071 * 3*(2/(2^q-2)) when every step is computed over the reals).
     REFUTED as literally stated: the angle clause for finite non-zero NON-denormal input with L1
     norm <= 1e-6 (the fallback replaces it by the x axis): C07_tiny_input_refuted. *)
 From Coq Require Import ZArith Reals List.
 From Flocq Require Import Core Binary.
 From Draco Require Import Base.Float32 Base.Float64 Model.Quantize Model.Octahedron Model.Normals
-  Proofs.Octahedron_proofs Proofs.Normals_proofs.
+  Proofs.Octahedron_proofs Proofs.Normals_proofs Proofs.Normals_ideal.
 Import ListNotations.
 Local Open Scope Z_scope.
 
@@ -148,6 +150,30 @@ Theorem C07_tiny_input_refuted :
 Proof. exact tiny_input_refuted. Qed.
 Print Assumptions C07_tiny_input_refuted.
 
+(** ---- exact-arithmetic ("ideal") angle bound: NOT about the float model ----
+    [ideal_encode c p] = floor(c*p_i + 1/2) for i = 0,1, then the repair and the sign step of the model
+    ([nv_repair]); [ideal_unwrap c st] = OctahedralCoordsToUnitVector's unwrapping in exact arithmetic,
+    scaled by c.  For every centre value c >= 1 and every real p on the octahedron (|p|_1 = 1):
+    the integer vector has abs sum c, its (s,t) is canonical, unwrapping (s,t) returns the integer
+    vector, and  |p x w|^2 <= 9/(2 c^2) * |p|^2 |w|^2  — i.e. sin(angle) <= (1/sqrt 2) * (3/c), where
+    3/c = 3*(2/(2^q-2)) for c = 2^(q-1)-1 — and for c >= 3 (q >= 3) the angle is acute.
+    What this is not: no float rounding (the model's binary64/binary32 steps are not related to the
+    ideal functions by a theorem), no arcsine step, nothing for q = 2 beyond the structure. *)
+Theorem C07_ideal_unwrap_inverts : forall c j, 1 <= c -> l1 j = c ->
+  ideal_unwrap c (int_vec_to_oct (obox_of_center c) j) = j.
+Proof. exact ideal_unwrap_inverts. Qed.
+Print Assumptions C07_ideal_unwrap_inverts.
+
+Theorem C07_angle_bound_ideal : forall c (p0 p1 p2 : R), 1 <= c -> (Rabs p0 + Rabs p1 + Rabs p2 = 1)%R ->
+  let j := ideal_encode c p0 p1 p2 in
+  let st := int_vec_to_oct (obox_of_center c) j in
+  let '(w0, w1, w2) := R3_of (ideal_unwrap c st) in
+  l1 j = c /\ canonical c st /\ ideal_unwrap c st = j /\
+  (cross_sq p0 p1 p2 w0 w1 w2 <= 9 / (2 * (IZR c * IZR c)) * (sq3 p0 p1 p2 * sq3 w0 w1 w2))%R /\
+  (3 <= c -> (0 < dot3 p0 p1 p2 w0 w1 w2)%R).
+Proof. exact angle_bound_ideal. Qed.
+Print Assumptions C07_angle_bound_ideal.
+
 (** ---- non-vacuity / behaviour on special input, by computation ---- *)
 Definition bx (q : Z) : obox := match set_quantization_bits q with Some b => b | None => obox_of_center 1 end.
 Definition vb := vec3_of_bits.
@@ -181,4 +207,8 @@ Proof. vm_compute. reflexivity. Qed.
 Example ex_roundtrip_q10 :
   match requant_normal 10 (vb 1058642330 3197737370 1036831949) with Ok d => obs_vec3 d | _ => nil end
   = [1063428497; 3202475157; 1041668193].
+Proof. vm_compute. reflexivity. Qed.
+
+(* ideal encoder: p = (0.5, 0.5, 0) at c = 1 takes the repair branch; p = (-0.25, 0.5, -0.25) at c = 511 *)
+Example ex_ideal_unwrap : ideal_unwrap 511 (int_vec_to_oct (obox_of_center 511) (-128, 255, -128)) = (-128, 255, -128).
 Proof. vm_compute. reflexivity. Qed.
